@@ -428,5 +428,6 @@ def verify(S):
     ctx.explore(canary)
 
 
+ENUMERATED = [{"what": 'proof per enumerated depth: maxdepth 1..3 (quick) / 1..4 (thorough); contents symbolic', "counted_as_proved": "per instance"}]
 REPLAY = {"*": "replay_exports"}
 NATIVE_CHECKS = [{"func": "crosscheck_exports", "payload": {}}]
